@@ -17,16 +17,18 @@ import (
 )
 
 type Engine struct {
-	loopMap    map[*ssa.Function]map[int]int // current loop ordinal -> ordinal in the contract (only when the loop count changed)
-	bindBase   bindingBase                   // locals and loops of the contracted functions on the tree the contracts were written against
-	siteCache  map[*ssa.Function]*siteTable
-	prog       *ssa.Program
-	fset       *token.FileSet
-	pkgs       []*packages.Package
-	allPkgs    map[string]*packages.Package
-	modulePath string
-	moduleDir  string
-	db         *SpecDB
+	loopMap     map[*ssa.Function]map[int]int // current loop ordinal -> ordinal in the contract (only when the loop count changed)
+	keyAlias    map[*ssa.Function]string      // functions known under the key a contract was written for (rebindFunctions)
+	rebindNotes []string
+	bindBase    bindingBase // locals and loops of the contracted functions on the tree the contracts were written against
+	siteCache   map[*ssa.Function]*siteTable
+	prog        *ssa.Program
+	fset        *token.FileSet
+	pkgs        []*packages.Package
+	allPkgs     map[string]*packages.Package
+	modulePath  string
+	moduleDir   string
+	db          *SpecDB
 
 	leafCache map[string][]Leaf
 	strIDs    map[string]int64
@@ -141,6 +143,9 @@ func (e *Engine) fnKey(fn *ssa.Function) string {
 	}
 	if o := fn.Origin(); o != nil {
 		fn = o
+	}
+	if k, ok := e.keyAlias[fn]; ok {
+		return k // a contract followed this function from its old key (rebindFunctions)
 	}
 	if p := fn.Parent(); p != nil {
 		name := fn.Name()
